@@ -312,9 +312,17 @@ def write_hb(rng, prec, pat, vals_dec, pf, inf, vf, opts):
     rhsfmt = "(5E16.8)".ljust(20) if rhs else rng.choice(["".ljust(20), "(5E16.8)".ljust(20)])
     L = []
     L.append(title + key)
-    L.append("%14d%14d%14d%14d%14d" % (len(ptr_lines) + len(ind_lines) + len(val_lines) + len(rhs_lines),
-                                        len(ptr_lines), len(ind_lines), len(val_lines), len(rhs_lines)))
-    L.append("%-3s%11s%14d%14d%14d%14d" % (opts.get("mxtype", "RUA"), "", m, n, len(ri), 0))
+    l2 = "%14d%14d%14d%14d%14d" % (len(ptr_lines) + len(ind_lines) + len(val_lines) + len(rhs_lines),
+                                    len(ptr_lines), len(ind_lines), len(val_lines), len(rhs_lines))
+    l3 = "%-3s%11s%14d%14d%14d%14d" % (opts.get("mxtype", "RUA"), "", m, n, len(ri), 0)
+    if opts.get("blank_zero", rng.random() < 0.3):
+        # Fortran I editing: a blank field IS zero; writers that have no right-hand sides / no elemental entries leave RHSCRD and
+        # NELTVL blank (the line keeps its width)
+        if not rhs_lines:
+            l2 = l2[:56] + " " * 14
+        l3 = l3[:56] + " " * 14
+    L.append(l2)
+    L.append(l3)
     L.append(pf["text"].ljust(16) + inf["text"].ljust(16) + vf["text"].ljust(20) + rhsfmt)
     if rhs:
         L.append("F%13s%14d%14d" % ("", 1, 0))
